@@ -3102,6 +3102,7 @@ class Set(Collection):
             if added: added |= to_add
             else: setdata.added = to_add  # added may be None
         if to_remove:
+            added, removed = setdata.added, setdata.removed  # may have been replaced above
             if added: (to_remove, setdata.added) = (to_remove - added, added - to_remove)
             if removed: removed |= to_remove
             else: setdata.removed = to_remove  # removed may be None
